@@ -2,7 +2,8 @@ ID = 'C20'
 UNITS = {
     'math': dict(wrap='wrap.cc', new_block=64),
 }
-BOUNDS = ('log2i: every positive value of all 8 integer types. gcd/reduce_fraction: definition (divides both, every common divisor '
+BOUNDS = ('Matrix4<double> M*inverse(M) == I within 1e-9 (IEEE doubles bit-blasted): strictly diagonally dominant M from structured families - diagonal entries +-1..15, or diagonal +-2..7 plus one symbolic off-diagonal entry in [-3,3] at each of the 12 positions, or diagonal +-3..7 plus two off-diagonal entries in [-2,2] (6 position pairs). '
+          'log2i: every positive value of all 8 integer types. gcd/reduce_fraction: definition (divides both, every common divisor '
           'divides it, coprime reduced terms, same ratio in 128-bit) for operands < 2^6 (quick) / < 2^8 (thorough) in uint8/16/32/64 and '
           'int32, plus the full-width identities gcd(x,0)=gcd(0,x)=gcd(x,x)=x, gcd(x,1)=1 for every value of all 8 types. '
           'random_int: every lo<=hi with hi-lo+1 representable, every byte of the random source symbolic; random_data: request '
@@ -20,8 +21,9 @@ STUBS = [
     '__cxa_thread_atexit / __cxa_atexit (destructor registration of the static fd and the thread_local buffer): no-ops (engine/rt/rt_model.c)',
 ]
 OUTSIDE = [
-    'Matrix4::inverse()/invert(): Gauss-Jordan elimination in double arithmetic with a tolerance claim (M*inverse(M) = I up to 1e-9 for diagonally '
-    'dominant M) is a floating-point numerical statement; not attempted with the bit-level solver',
+    'Matrix4<double>::inverse()/invert() beyond the structured families of h_inv.c (diagonal +-1..15; diagonal +-2..7 plus one off-diagonal entry in [-3,3] at any '
+    'position; diagonal +-3..7 plus two off-diagonal entries in [-2,2] at six position pairs): dense diagonally dominant matrices and non-integer entries are a '
+    'floating-point statement over 16 free doubles that the bit-level solver does not decide',
     'norm() (sqrt), str() (printf %g), the double/float instantiations of Vector/Matrix',
     'gcd/reduce_fraction for operands >= 2^8 (measured: operands < 2^10 in uint16/uint64 give no verdict in 300 s with kissat; each Euclid step is a '
     'relational divider for the SAT solver) apart from the full-width identities listed in BOUNDS; negative operands (excluded by the property)',
@@ -132,4 +134,14 @@ def queries(tier):
           desc='(A B)[c][r] == sum_z A[z][r] B[c][z] (phosg accumulates in double), operator* and operator*=', bounds='entries in [-1,1]')
     q('m4_assoc_01', 'h_mat.c', {'MODE': 3, 'EB': 1, 'NNBITS': 1}, 70, 900, mem_gb=8, backend='kissat', cost=300,
       desc='(A B) v == A (B v)', bounds='entries and components in {0,1}')
+    # ---- Matrix4<double>: M * inverse(M) == I within 1e-9 (IEEE doubles bit-blasted; structured diagonally dominant families) ------
+    inv = [('diag', dict(NOFF=0, DLO=1, DHI=15 if thorough else 3), 'diagonal matrices, entries +-1..%d' % (15 if thorough else 3))]
+    for pos in ((1, 11) if not thorough else (1, 2, 3, 4, 6, 7, 8, 9, 11, 12, 13, 14)):
+        inv.append(('off%d' % pos, dict(NOFF=1, POS0=pos, DLO=2, DHI=7, OB=3), 'diagonal +-2..7 plus ONE off-diagonal entry at index %d in [-3,3]' % pos))
+    if thorough:
+        for p0, p1 in ((1, 4), (1, 6), (2, 9), (4, 13), (7, 8), (3, 12)):
+            inv.append(('off%d_%d' % (p0, p1), dict(NOFF=2, POS0=p0, POS1=p1, DLO=3, DHI=7, OB=2), 'diagonal +-3..7 plus TWO off-diagonal entries at indices %d,%d in [-2,2]' % (p0, p1)))
+    for nm, dd, bd in inv:
+        q('m4d_inverse_' + nm, 'h_inv.c', dd, 18, 900, mem_gb=8, cost=120,
+          desc='Matrix4<double>: M * inverse(M) == I within 1e-9, inverse()/invert() do not throw (strictly diagonally dominant M)', bounds=bd)
     return qs
